@@ -9,6 +9,7 @@ callback, or aborted at an executed line of library code.
 from __future__ import annotations
 
 from vf import ops
+from vf import grammar
 from vf.probe import run_probe_case
 from vf.props.common import world_history
 from vf.runner import run_given
@@ -45,7 +46,7 @@ def units(tier, seed):
 
 def run_unit(ctx, unit):
     b = BOUNDS[ctx.tier]
-    run_given(ctx, lambda case: run_case(ctx, case), {"case": world_history("data", max_ops=8, probe=_probe, bad_rate=(1, 8))}, b["examples"], ctx.seed * 1000 + unit[1])
+    run_given(ctx, lambda case: run_case(ctx, case), {"case": world_history(dict(grammar.PROFILES["data"], cached_props=True), max_ops=8, probe=_probe, bad_rate=(1, 8))}, b["examples"], ctx.seed * 1000 + unit[1])
 
 
 def replay(ctx, case):
